@@ -1710,24 +1710,19 @@ impl UnifiedCommandExecutor {
                 let byte_offset = offset / 8;
                 let bit_offset = offset % 8;
                 
-                let mut data = match self.storage.get_string(db, &key)? {
-                    Some(existing) => existing,
-                    None => Vec::new(),
+                let old_byte = match self.storage.get_string(db, &key)? {
+                    Some(existing) => existing.get(byte_offset).copied().unwrap_or(0),
+                    None => 0,
+                };
+                let old_bit = (old_byte >> (7 - bit_offset)) & 1;
+                let new_byte = if value == 1 {
+                    old_byte | (1 << (7 - bit_offset))
+                } else {
+                    old_byte & !(1 << (7 - bit_offset))
                 };
                 
-                if byte_offset >= data.len() {
-                    data.resize(byte_offset + 1, 0);
-                }
-                
-                let old_bit = (data[byte_offset] >> (7 - bit_offset)) & 1;
-                
-                if value == 1 {
-                    data[byte_offset] |= 1 << (7 - bit_offset);
-                } else {
-                    data[byte_offset] &= !(1 << (7 - bit_offset));
-                }
-                
-                self.storage.set_string(db, key, data)?;
+                // Written in place (the string grows with zero bytes as needed), so the key keeps its time to live
+                self.storage.setrange(db, key, byte_offset, vec![new_byte])?;
                 Ok(RespFrame::Integer(old_bit as i64))
             }
             
